@@ -19,8 +19,8 @@ using namespace vf;
 #endif
 
 static const char *feat(int i) {
-  static const char *n[] = {"len_ge_2", "non_pointer_iterator", "non_trivial_value", "throw_at_interior_index", "throw_at_first", "throw_at_last", "wrapped_forward_destination", "relocate"};
-  return i < 8 ? n[i] : 0;
+  static const char *n[] = {"len_ge_2", "non_pointer_iterator", "non_trivial_value", "throw_at_interior_index", "throw_at_first", "throw_at_last", "wrapped_forward_destination", "relocate", "array_construct_at"};
+  return i < 9 ? n[i] : 0;
 }
 
 // element whose move constructor can throw (only here)
@@ -47,6 +47,17 @@ class ThrM {
   uint32_t id() const { return _id; }
  private:
   uint32_t _id, _magic;
+};
+
+// move-only variant: no copy constructor to fall back to, the move constructor can throw
+class ThrMO : public ThrM {
+ public:
+  ThrMO() : ThrM() {}
+  explicit ThrMO(int v) : ThrM(v) {}
+  ThrMO(const ThrMO &) = delete;
+  ThrMO &operator=(const ThrMO &) = delete;
+  ThrMO(ThrMO &&o) : ThrM(std::move(o)) {}
+  ThrMO &operator=(ThrMO &&o) { ThrM::operator=(std::move(o)); return *this; }
 };
 
 // forward iterator over raw storage (not a pointer: selects the non-memcpy code paths)
@@ -90,8 +101,10 @@ template <class E> static int vget(const E &e) { return val_of(e); }
 static int vget(const ThrM &e) { return e.val(); }
 template <class E> struct Mk { static E make(int v) { return ET<E>::make(v); } };
 template <> struct Mk<ThrM> { static ThrM make(int v) { return ThrM(v); } };
+template <> struct Mk<ThrMO> { static ThrMO make(int v) { return ThrMO(v); } };
 template <class E> struct IsTracked { static const bool value = ET<E>::tracked; };
 template <> struct IsTracked<ThrM> { static const bool value = true; };
+template <> struct IsTracked<ThrMO> { static const bool value = true; };
 template <class E> struct IsTriv { static const bool value = std::is_trivially_copyable<E>::value; };
 
 struct ArmGuard {
@@ -382,6 +395,84 @@ static void relocate_case(const char *ename, int algo, long len, const char *sna
   }
 }
 
+// ---- construct_at on C arrays (an extension of the pre-C++20 emulation: element-wise construction with clean-up)
+#if __cplusplus < 202002L
+template <class E, int N>
+static void array_case(const char *ename) {
+  typedef E Arr[N];
+  static Buf<E> sbuf, dbuf;
+  uint64_t P = 0;
+  for (int pass = 0; pass < 2; ++pass) {
+    uint64_t kmax = pass == 0 ? 0 : P;
+    for (uint64_t k = 0; k <= kmax; ++k) {
+      const bool dry = pass == 0;
+      char key[200];
+      snprintf(key, sizeof key, "construct_at<%s[%d]> from rvalue array throw=%s%lu", ename, N, k == P ? "none/" : "", (unsigned long)k);
+      if (!dry && !enum_begin(key)) continue;
+      ledgers_reset();
+      sbuf.scribble();
+      dbuf.scribble();
+      for (int i = 0; i < N; ++i) new (sbuf.at(i)) E(Mk<E>::make(20 + i));
+      Arr *src = reinterpret_cast<Arr *>(sbuf.at(0));
+      Arr *dst = reinterpret_cast<Arr *>(dbuf.at(0));
+      bool threw = false;
+      Arr *ret = 0;
+      {
+        ArmGuard g(!dry && k < P, k);
+        try {
+          ret = amc::construct_at(dst, std::move(*src));
+        } catch (const InjectedFault &) {
+          threw = true;
+        }
+        if (dry) P = faults().passed;
+      }
+      if (dry) {
+        if (!threw)
+          for (int i = 0; i < N; ++i) dbuf.at(i)->~E();
+        for (int i = 0; i < N; ++i) sbuf.at(i)->~E();
+        continue;
+      }
+      if (N >= 2) feature(0);
+      feature(8);
+      if (!IsTriv<E>::value) feature(2);
+      if (k < P) feature(k == 0 ? 4 : (k + 1 == P ? 5 : 3));
+      if (k < P) {
+        if (!threw) violation(P15, "injected exception did not propagate");
+        for (int i = 0; i < N && !failed(); ++i)
+          if (!ET<E>::magic_ok(*sbuf.at(i))) violation(P15 | P02, "source element %d is no longer alive after a failed construct_at", i);
+        if (!failed()) {
+          for (int i = 0; i < N; ++i) sbuf.at(i)->~E();
+          if (IsTracked<E>::value && cells().live != 0) violation(P15 | P02, "%u element(s) created by the failed array construct_at were not destroyed", cells().live);
+        }
+        if (!failed() && !dbuf.canary_ok(N)) violation(P15, "memory outside the destination array was written");
+      } else {
+        if (threw) violation(P15, "exception without injected fault");
+        if (!failed() && ret != dst) violation(P15, "construct_at does not return its first argument");
+        for (int i = 0; i < N && !failed(); ++i)
+          if (vget(*dbuf.at(i)) != 20 + i) violation(P15, "array element %d is %d, expected %d", i, vget(*dbuf.at(i)), 20 + i);
+        if (!failed() && !dbuf.canary_ok(N)) violation(P15, "memory outside the destination array was written");
+        for (int i = 0; i < N; ++i) sbuf.at(i)->~E();
+        if (!failed() && IsTracked<E>::value && cells().live != static_cast<uint32_t>(N)) violation(P15 | P02, "%u live values after moving an array of %d", cells().live, N);
+        for (int i = 0; i < N; ++i) dbuf.at(i)->~E();
+        if (!failed() && IsTracked<E>::value && cells().live != 0) violation(P15 | P02, "%u value(s) still alive at the end", cells().live);
+      }
+      enum_end(N >= 2 && !IsTriv<E>::value);
+    }
+  }
+}
+template <class E>
+static void array_cases(const char *ename) {
+  array_case<E, 1>(ename);
+  array_case<E, 2>(ename);
+  array_case<E, 3>(ename);
+  array_case<E, 5>(ename);
+  array_case<E, 8>(ename);
+}
+#else
+template <class E>
+static void array_cases(const char *) {}
+#endif
+
 template <class E> static E *mk_ptr(E *p) { return p; }
 template <class E> static std::reverse_iterator<E *> mk_rev(E *p) { return std::reverse_iterator<E *>(p); }
 template <class E> static FwdRaw<E> mk_fwd(E *p) { return FwdRaw<E>(p); }
@@ -431,5 +522,11 @@ int main(int argc, char **argv) {
   run_elem<TR>("TR", true, true);
   run_elem<NTR>("NTR", true, true);
   run_elem<ThrM>("ThrM", true, true);
+  run_elem<ThrMO>("ThrMO(move-only, throwing move)", false, true);
+  array_cases<int32_t>("int");
+  array_cases<TR>("TR");
+  array_cases<NTR>("NTR");
+  array_cases<ThrM>("ThrM");
+  array_cases<ThrMO>("ThrMO");
   return enum_finish(&feat, "");
 }
